@@ -440,3 +440,19 @@ Proof.
       apply (proj2 (Query.contains_spec _ _ HS (Hc e He))). exact Hsub. }
     rewrite E. exact Hr1.
 Qed.
+
+(** ---------- an executable reference for ST algebra (used as model VALUE by the store
+    histories of C13; every use is certified at run time by the verified checker
+    [pts_opb], so no correctness theorem is needed for it) ---------- *)
+Definition next_above (bs : list N) (p : N) : option N :=
+  fold_left (fun acc b => if p <? b then match acc with None => Some b | Some m => Some (N.min m b) end else acc) bs None.
+
+Definition st_op_spec (o : op2) (ub : N) (A B : stmoc) : stmoc :=
+  let bs := tbounds A ++ tbounds B in
+  flat_map (fun p => match next_above bs p with
+                     | None => []
+                     | Some q => match op2_ranges o ub (s_at A p) (s_at B p) with
+                                 | [] => []
+                                 | r0 :: rs => [([(p, q)], r0 :: rs)]
+                                 end
+                     end) (nodup N.eq_dec bs).
